@@ -412,6 +412,17 @@ def judge_call(g, c, resp, before, after, now):
         out.append(("write-sent-twice", "one call of %s sent %d POST requests (script %s)" % (c["tool"], len(writes_sent), c["faults"])))
     if c["expect"] == "refuse" and (fwd or seen):
         out.append(("refused-but-sent", "a call the tool must refuse (%s) reached the network: %d connection(s), %d served" % (c["tag"], len(fwd), len(seen))))
+    # the audit identity of the call travels with the request: reason and request id as given (trimmed), actor = the MCP principal
+    for fr in writes_sent[:1]:
+        a = c["args"]
+        want = {"reason": a["reason"].strip() if isinstance(a.get("reason"), str) else None, "actor": A.PRINCIPAL,
+                "request_id": a["request_id"].strip() if isinstance(a.get("request_id"), str) else ""}
+        got = {"reason": fr["reason"], "actor": fr["actor"], "request_id": fr["request_id"]}
+        if want["reason"] is not None and got != want:
+            out.append(("audit-not-forwarded", "the Admin request carries audit headers %s, the call was made with %s" % (got, want)))
+        tok = "Bearer " + A.ADMIN_TOKEN if g["intent"].get("token") and g["auth"] else None
+        if tok is not None and fr["auth"] != tok:
+            out.append(("token-not-sent", "the Admin request carries Authorization %r, the configuration has the token" % fr["auth"][:20]))
     lossy = any(b in ("lost", "truncated", "delay_late") for b in c["faults"])
     if ok:
         out += A.judge_property(dict(c, transport="proxy"), resp, before, after, now)
@@ -433,6 +444,15 @@ def judge_call(g, c, resp, before, after, now):
     for p in A.check_effect(verb, sel, before, after, len(ch), None, now):
         out.append(("lost-answer-effect", "the answer was lost (script %s); the rows changed are not what one request selects: %s" % (c["faults"], p)))
     return out
+
+
+def gen_consts():
+    """the integer definitions of Gen/AdminProxy.v as the translator wrote them on this run"""
+    try:
+        txt = open(os.path.join(C.COQ, "Gen", "AdminProxy.v")).read()
+    except OSError:
+        return {}
+    return {m.group(1): int(m.group(2)) for m in re.finditer(r"Definition (ap_\w+) : Z := (-?\d+)\.", txt)}
 
 
 def expected_audit(resp):
@@ -556,10 +576,12 @@ def finish(h, report_prefix="C14proxy", audit_only=False):
                               "observed": {"status": resp["status"], "audit_results": resp.get("audit"), "audit_fields_ok": resp.get("audit_fields_ok"),
                                            "requests_sent": resp.get("fwd"), "body": resp["body"]}})
             continue
-        for k, v in (("admin_proxy_retry_max_get", 3),):
-            if o["consts"].get(k) != v:
-                C.report(ctx, "%s:constant:%s" % (report_prefix, k), "Go constant %s = %s, Model/ManageProxy.v says %d" % (k, o["consts"].get(k), v),
-                         {"kind": "obligation", "constant": k, "observed": o["consts"].get(k), "expected": v, "no_failing_input_found": True})
+        gen = gen_consts()
+        for k, gk, div in (("admin_proxy_retry_max_get", "ap_retry_max_get", 1), ("admin_proxy_retry_backoff_ms", "ap_retry_backoff_ns", 1000000),
+                           ("admin_proxy_timeout_ms", "ap_timeout_ns", 1000000)):
+            if gen.get(gk) is None or o["consts"].get(k) != gen[gk] // div:
+                C.report(ctx, "%s:constant:%s" % (report_prefix, k), "Go constant %s = %s, Gen/AdminProxy.v %s = %s" % (k, o["consts"].get(k), gk, gen.get(gk)),
+                         {"kind": "obligation", "constant": k, "observed": o["consts"].get(k), "expected": gen.get(gk), "no_failing_input_found": True})
         probs = A.check_compiled(g["intent"], o["compiled"])
         if o.get("mcp_backend") != "memory":
             probs.append("the MCP configuration compiles to queue backend %r, intended memory" % o.get("mcp_backend"))
